@@ -306,8 +306,8 @@ theorem TokLog.sorted {TL : List Token → Nat → Nat → Local → Env → Pro
       refine SatS.weaken this ?_ ?_ (fun _ h => h)
       · rintro l e ⟨⟨h1, h2⟩, h3⟩; exact ⟨h2, h1, h3⟩
       · rintro _ l e ⟨hs, h1, h2⟩; exact ⟨⟨h1, hs⟩, h2⟩
-    · rintro len f l e cell kill ⟨h1, h2⟩ h3 h4
-      exact ⟨(h.act ts).queue len f l e cell kill h1 h3 h4, h2⟩
+    · rintro len f l e cell kill ⟨h1, h2⟩ h3 h4 h5
+      exact ⟨(h.act ts).queue len f l e cell kill h1 h3 h4 h5, h2⟩
     · rintro len f l e ps ⟨h1, h2⟩
       exact ⟨(h.act ts).ps len f l e ps h1, h2⟩
     · intro d len f st s b
